@@ -41,7 +41,7 @@ def run(check: Check) -> None:
     check.bounds.update(
         {
             "scale_fit_n": "2..6" if thorough else "2..4",
-            "poly_fit": "n=3 degree<=2" + ("; n=4 degree<=2 (120 s cap)" if thorough else ""),
+            "poly_fit": "n=3 degree<=2" + ("; n=4 degree<=2, n=5 degree 1 (120 s cap; n=4 degree 3 and n=5 degree 2 were tried and do not decide)" if thorough else ""),
             "poly_replay_degree": 3,
             "replay_rows": 2,
         }
@@ -167,7 +167,7 @@ def run(check: Check) -> None:
 
     # ---------------------------------------------------------------- poly
     with patched_numpy(POLY_MOD):
-        fits = [(3, 1), (3, 2)] + ([(4, 1), (4, 2)] if thorough else [])
+        fits = [(3, 1), (3, 2)] + ([(4, 1), (4, 2), (5, 1)] if thorough else [])  # (4, 3) and (5, 2) do not decide within the 120 s cap (z3 nlsat)
         for n, deg in fits:
             def fn(n=n, deg=deg):
                 x = sym_vector("x", n)
